@@ -1,5 +1,5 @@
 """C08 (MAC family: MacTrace.tla)."""
-from . import macfam, core, mcreplay
+from . import macfam, core, mcreplay, mcdata
 PID = "C08"
 
 
@@ -15,8 +15,14 @@ def run():
             else [("MCMacCmd.tla", "MCMacCmd1.cfg", {"workers": 8})]),
         # specification -> implementation: one behaviour per reachable design state, executed on the real devices
         extra=[mcreplay.extra(PID, [("MCMacCmdGen2.cfg", "EU868"), ("MCMacCmdGenUS2.cfg", "US915")] if t
-                              else [("MCMacCmdGen1.cfg", "EU868"), ("MCMacCmdGenUS1.cfg", "US915")])])
+                              else [("MCMacCmdGen1.cfg", "EU868"), ("MCMacCmdGenUS1.cfg", "US915")]),
+               # beyond the default build: the remote multicast set-up handler (cargo feature `multicast`, FPort 200) under McTrace.tla
+               mcdata.extra(PID)])
 
 
 def replay(path):
+    import json
+    with open(path) as f:
+        if json.load(f).get("mc"):
+            return mcdata.replay(PID, path)
     return macfam.replay(PID, path)
